@@ -3,6 +3,7 @@
 package main
 
 import (
+	"fmt"
 	"strings"
 
 	"github.com/kubeshark/base/pkg/languages/kfl"
@@ -67,6 +68,13 @@ func genMacro(r *Rand, tier string, emit func(sx.Sx)) {
 	}
 	for _, f := range fixed {
 		emit(sx.S(f))
+	}
+	// macro names inside literals that also hold escaped quotes and backslashes, before and after them
+	for _, n := range names {
+		for _, f := range []string{`x == "say \"%s\" now" and %s`, `"%s \" x" == a and %s`, `a == "\" %s" or %s`, `a == "b\\" and %s and c == "%s\\\" q"`,
+			`%s and a == "\\%s\\"`, `a == "\"\"%s\"\"" and !%s`, `"\\\"" == %s or "%s"`} {
+			emit(sx.S(fmt.Sprintf(f, n, n)))
+		}
 	}
 	// a macro defined, used, redefined and used again (AddMacro is the registration API of the table)
 	for i, q := range []string{"zzverif", "zzverif and http", "!zzverif or request.path == \"zzverif\"", "http and zzverif2 and xzzverif2 and \"zzverif2\""} {
